@@ -263,8 +263,12 @@ def w_align(ctx, rng, i):
         int_src = bool(rng.random() < 0.25)
         if int_src:
             # landmark coordinates are often integer pixel positions: integer-typed sources are ordinary input
-            src = np.round(src * (3.0 if np.abs(src).max() < 100 else 1.0)).astype(np.int64)
-            ctx.bump("integer_typed_sources")
+            ext = float(np.ptp(src, axis=0).min())
+            cand = np.round(src * (max(1.0, 40.0 / max(ext, 1e-300)))).astype(np.int64)
+            sv = np.linalg.svd(cand - cand.mean(0), compute_uv=False)
+            if sv[-1] > 0.1 * sv[0] and len(np.unique(cand, axis=0)) == len(cand):      # still in general position after rounding
+                src = cand
+                ctx.bump("integer_typed_sources")
         L, tr = family_member(rng, kind, d, opts)
         tgt = src @ L.T + tr
         if noise:
